@@ -59,6 +59,7 @@ DEFAULT_KNOBS = dict(
     value_kinds=["id", "id", "int"],
     p_assign_style=0.3,
     p_multi_group_name=0.0,
+    p_from_any=0.0,
     p_attach_style=0.0,
     p_awaitable=0.0,
     p_prop_guard=0.0,
@@ -181,11 +182,27 @@ def gen_program(rnd, k, idx=0, name=None):
     # single-event transitions may be declared with the assignment style ``ev = a.to(b)``;
     # assigning adds the attribute's name as an event to the transition, so only when it matches
     seen_assign = set()
+    anyd = []
+    if rnd.random() < k["p_from_any"]:
+        # ``ev = target.from_.any(...)`` declarations: a transition to <target> from every non-final state
+        for _ in range(rnd.randint(1, 2)):
+            spare = [e for e in EVENT_POOL if e not in events and e not in seen_assign]
+            e = rnd.choice(spare) if spare and rnd.random() < 0.5 else rnd.choice(events)
+            if e in seen_assign:
+                continue
+            seen_assign.add(e)  # the attribute name is taken
+            a = {"src": "<any>", "dst": rnd.choice(ids), "events": [e]}
+            if rnd.random() < 0.4:
+                a["alias"] = "alias_" + e  # ``event=`` given to from_.any(): not an event of the machine
+            anyd.append(a)
+            if e not in events:
+                events.append(e)
+        prog["any"] = anyd
     for t in trans:
         if len(t["events"]) == 1 and rnd.random() < k["p_assign_style"] and t["events"][0] not in seen_assign:
             t["assign"] = t["events"][0]
             seen_assign.add(t["events"][0])
-    events = [e for e in events if any(e in t["events"] for t in trans)]
+    events = [e for e in events if any(e in t["events"] for t in trans + anyd)]
     prog["events"] = events
 
     # providers
@@ -229,7 +246,7 @@ def gen_program(rnd, k, idx=0, name=None):
         if nm not in lst:
             lst.append(nm)
 
-    for t in trans:
+    for t in trans + anyd:
         if rnd.random() < k["p_validator"]:
             t.setdefault("validators", [])
             for _ in range(rnd.randint(1, 2)):
@@ -256,7 +273,7 @@ def gen_program(rnd, k, idx=0, name=None):
             add_unique(s["exit"], fresh("ex_", "exit"))
     # the same callable attached to several groups of one transition / one state
     if k["p_multi_group_name"] > 0:
-        for t in trans:
+        for t in trans + anyd:
             have = [g for g in ("before", "on", "after") if t.get(g)]
             if have and rnd.random() < k["p_multi_group_name"]:
                 nm = rnd.choice(t[rnd.choice(have)])
@@ -282,7 +299,7 @@ def gen_program(rnd, k, idx=0, name=None):
     # guards inside boolean expressions
     if k["p_expr_guard"] > 0:
         gnames = sorted({c.split(".", 1)[1] for c, m in prog["cbs"].items() if m["group"] == "cond"})
-        for t in trans:
+        for t in trans + anyd:
             if gnames and rnd.random() < k["p_expr_guard"]:
                 a = rnd.choice(gnames)
                 b = rnd.choice(gnames)
@@ -316,12 +333,12 @@ def assign_styles(rnd, prog, p):
         name = c.split(".", 1)[1]
         if len(provs[name]) != 1 or name in conv or name.startswith(("on_enter_", "on_exit_")):
             continue
-        uses_t = [(t, g) for t in prog["trans"] for g in ("validators", "cond", "unless", "before", "on", "after")
-                  if name in t.get(g, [])]
+        uses_t = [(t, g) for t in prog["trans"] + prog.get("any", [])
+                  for g in ("validators", "cond", "unless", "before", "on", "after") if name in t.get(g, [])]
         uses_s = [(s_, g) for s_ in prog["states"] for g in ("enter", "exit") if name in s_.get(g, [])]
         if not uses_t and not uses_s:
             continue  # a naming-convention callback (before_<event> ...)
-        in_expr = any(name in e and not e.isidentifier() for t in prog["trans"]
+        in_expr = any(name in e and not e.isidentifier() for t in prog["trans"] + prog.get("any", [])
                       for e in list(t.get("cond", [])) + list(t.get("unless", [])))
         if in_expr or rnd.random() >= p:
             continue
@@ -343,7 +360,7 @@ def group_instances(prog, roles=None):
     ref = type("R", (), {"model_state": {}})()
     inst = RefInst(ref, "_", rp, {}, roles or all_roles(prog))
     out = []
-    for t in [dict(t, idx=i) for i, t in enumerate(prog["trans"])]:
+    for t in [dict(t, idx=i) for i, t in enumerate(rp.trans)]:
         for ev in t["events"]:
             for kind in ("validators", "before", "exit", "on", "enter", "after"):
                 if kind in ("exit", "enter") and t.get("internal"):
